@@ -77,6 +77,9 @@ type Case struct {
 	// C08: per subscriber the Sends of phase 2 (1-based ordinal) that block, and for how
 	// many further writes (0 = for ever)
 	Plan [][]Block `json:"plan,omitempty"`
+	// C08 family acl-quiet: targets the RPC's ACL hides; after a write to one of them (and
+	// after every subscription start) the harness stays quiet for 3 timeouts
+	Hidden []string `json:"hidden,omitempty"`
 	// C08: CancelSub >= 0: that (never stalled) subscriber's client goes away after write number CancelAfter
 	CancelSub   int `json:"cancel_sub"`
 	CancelAfter int `json:"cancel_after"`
